@@ -387,6 +387,11 @@ class ParallelSpecFinder(Generic[ClassType1, ObjType1, ClassType2, ObjType2]):
             sp2,
         ) = ParallelSpecFinder._search_matching_info_init(matching_info)
 
+        # Pairs whose assigned rules have been (or are being) compared child by
+        # child. Two labels that were assigned with other partners still have to
+        # be compared with each other, all the way down, the first time they meet.
+        compared: List[Tuple[int, int]] = []
+
         # Recursive helper function that tries to populate the spec maps in a way
         # that no label appears on the LHS more than one time.
         def _rec(
@@ -401,6 +406,10 @@ class ParallelSpecFinder(Generic[ClassType1, ObjType1, ClassType2, ObjType2]):
             if bc:
                 return bool(bc + 1)
 
+            # If both are assigned and were compared with each other, we are done
+            if id1 in sp1 and id2 in sp2 and (id1, id2) in compared:
+                return True
+
             # If ids have appeared before, we don't want to clean them when done
             rec1, rec2 = id1 in sp1, id2 in sp2
 
@@ -413,6 +422,8 @@ class ParallelSpecFinder(Generic[ClassType1, ObjType1, ClassType2, ObjType2]):
             ):
                 # Add rule for spec to (id -> children) for both specs
                 sp1[id1], sp2[id2] = children1, children2
+                n_compared = len(compared)
+                compared.append((id1, id2))
 
                 # Construct cleaning sets that are passed down the recursion
                 to_clean: Tuple[Set[int], Set[int]] = (set(), set())
@@ -434,6 +445,7 @@ class ParallelSpecFinder(Generic[ClassType1, ObjType1, ClassType2, ObjType2]):
                     id_sets[1].update(to_clean[1], () if rec2 else (id2,))
                     return True
                 # If failed, remove all descendants that populated the spec maps.
+                del compared[n_compared:]
                 ParallelSpecFinder._clean_descendants(
                     *to_clean, id1, id2, sp1, sp2, rec1, rec2
                 )
@@ -479,9 +491,6 @@ class ParallelSpecFinder(Generic[ClassType1, ObjType1, ClassType2, ObjType2]):
         # If atoms, there is only one possible outcome
         if ((), ()) in matching_info[(id1, id2)]:
             sp1[id1], sp2[id2] = (), ()
-            return ParallelSpecFinder._VALID
-        # If both are assigned, we are done
-        if id1 in sp1 and id2 in sp2:
             return ParallelSpecFinder._VALID
         return ParallelSpecFinder._UNKNOWN
 
@@ -598,6 +607,10 @@ class EqPathParallelSpecFinder(
         # For storing results of eq path checking.
         eq_path_tracker: EqPathTracker = defaultdict(lambda: defaultdict(dict))
 
+        # Pairs whose assigned rules have been (or are being) compared child by
+        # child (see ParallelSpecFinder._search_matching_info).
+        compared: List[Tuple[int, int]] = []
+
         def _rec(
             id1: int,
             id2: int,
@@ -614,7 +627,11 @@ class EqPathParallelSpecFinder(
                 self._path[-1],
                 eq_path_tracker,
             )
-            if bc:
+            if bc == EqPathParallelSpecFinder._VALID and id1 in sp1 and sp1[id1]:
+                # Both are assigned: done only if they were compared with each other
+                if (id1, id2) in compared:
+                    return True
+            elif bc:
                 return bool(bc + 1)
             rec1, rec2 = id1 in sp1, id2 in sp2
             for children1, children2 in filter(
@@ -623,6 +640,8 @@ class EqPathParallelSpecFinder(
                 matching_info[(id1, id2)],
             ):
                 sp1[id1], sp2[id2] = children1, children2
+                n_compared = len(compared)
+                compared.append((id1, id2))
                 to_clean: Tuple[Set[int], Set[int]] = (set(), set())
 
                 # Check if the path required for the eq labels actually matches
@@ -654,6 +673,7 @@ class EqPathParallelSpecFinder(
                         id_sets[0].update(to_clean[0], () if rec1 else (id1,))
                         id_sets[1].update(to_clean[1], () if rec2 else (id2,))
                         return True
+                del compared[n_compared:]
                 EqPathParallelSpecFinder._clean_descendants(
                     *to_clean, id1, id2, sp1, sp2, rec1, rec2
                 )
@@ -726,6 +746,9 @@ class EqPathParallelSpecFinder(
             return True
         if children1 == () == children2:
             return self._atom_path_match(id1, id2, sp1, sp2)
+        if (children1, children2) not in matching_info.get((id1, id2), {}):
+            # both assigned with other partners, to rules that do not match each other
+            return False
         mem.add((id1, id2))
         for j2, ((j1, child1), child2) in enumerate(
             zip(
